@@ -15,6 +15,10 @@ CHECKS = {
    text="Same histories focusing on handles: after every step every live handle reads its original key/value/weight, is_outdated() equals the model's 'lookup would not return this entry', LRU never evicts a looked-up-and-held entry; epilogue drops all handles and inserts once per shard: every shard must be within capacity (no leaked pins).",
    note="Single-threaded; the multi-threaded drop/get race on the reference count is not explored here.",
    technique="model-based property testing (bounded-exhaustive + proptest random) with per-handle invariants"),
+ "C14": dict(engine="memsim", category="exploration", design="§5 C14, Appendix A",
+   text="Differential test of a one-shard Cache against five reference models written from the documented rules and the SIEVE / S3-FIFO / W-TinyLFU papers; compared observable is the ordered (Evict,key) sequence of every operation and the resident set after it. Set-valued only where the documentation is silent. Bounded-exhaustive (depth 3-5) plus random histories up to 400 ops over 50 configurations (pool/queue ratios, thresholds, sketch sizes small enough to reach halving).",
+   note="Single shard, single thread; the count-min sketch implementation (datasketches) is shared with foyer and trusted; clear() is outside the C14 alphabet.",
+   technique="differential property testing against reference eviction models (bounded-exhaustive + proptest random)"),
 }
 
 NOT_YET = {
@@ -56,7 +60,7 @@ def main():
             "add_only": True,
         },
         "engines": [
-            {"name": "memsim", "path": "/verif/harness/core/src/memsim.rs", "serves_properties": ["C05", "C13", "C18"],
+            {"name": "memsim", "path": "/verif/harness/core/src/memsim.rs", "serves_properties": ["C05", "C13", "C14", "C18"],
              "kind_free_text": "single-threaded interpreter for foyer::Cache histories + event-driven reference model (memoracle.rs)"},
         ],
         "checks": checks,
